@@ -8,6 +8,10 @@ normal form in QQ(symbols); they are *bounded* checks (dimension), never counted
 Pre-states are as general as the property allows: a model "in an arbitrary interpolating state" is a Quadratic whose
 constant, gradient, implicit Hessian and (symmetric) explicit Hessian are all free symbols, and the recorded values are
 *defined* as its values at the interpolation points (so INTERP holds by construction and nothing else is assumed).
+
+Generic symbolic new values never give an identically zero residual; the unit C12.modeb.update.zero_residual therefore adds
+updates in which the value recorded at the new point IS the model's own prediction for some of the models (values_diff
+identically zero, decided exactly by Mode B's np.any), from an arbitrary state and after an ordinary update, followed by a shift.
 """
 import os
 
@@ -178,6 +182,81 @@ def case_update(emit, n, npt, k_new, symbolic, sym_xnew, ill=False):
     emit("C12.update_all_models_even_if_ill_conditioned" + tag0 + "]", good, note)
 
 
+def fresh_models(sh, F, it, npt):
+    """Models with fun + 1 cub + 1 ceq built by the REAL Quadratic.__init__ from free symbolic values (least-norm interpolants)."""
+    fv, uv, qv = free_values(F, npt)
+    fun = sh.m.Quadratic(it, fv, False)
+    cub = [sh.m.Quadratic(it, uv[:, 0], False)]
+    ceq = [sh.m.Quadratic(it, qv[:, 0], False)]
+    return sh.models(it, fv, uv, qv, fun, cub, ceq)
+
+
+def case_update_zero_residual(emit, n, npt, k_new, zero, symbolic, sym_xnew, history, sym_base=True):
+    """update_interpolation in which, for every model named in `zero` ('fun', 'cub', 'ceq'), the value recorded at x_new is
+    that model's OWN prediction at x_new (its values_diff is identically zero) while the other new values stay free symbols;
+    npt > n+1, and the replaced point carries a non-zero implicit Hessian weight in every model.
+
+    history=False: pre-state = arbitrary interpolating state (general_models; the implicit weights are free symbols);
+    history=True:  pre-state = fresh least-norm models of free symbolic values followed by one ORDINARY update (generic new
+                   values) of another point, so that a weight has already been forwarded to the explicit Hessian.
+    Afterwards the base point is shifted (new base symbolic, or generic rational if not sym_base).  INTERP is required after
+    the update and after the shift.  Rational points are sampled so that the interpolation set stays poised."""
+    pre = "fresh+ordinary_update" if history else "arbitrary_state"
+    tag = (f"[n={n},npt={npt},k_new={k_new},zero={'+'.join(zero)},pre={pre},geom={gtag(symbolic)},"
+           f"x_new={'symbolic' if sym_xnew else 'rational'},new_base={'symbolic' if sym_base else 'rational'}]")
+    names = mb.geometry_names(n, npt, symbolic) + (free_value_names(npt) + ["pf", "pu", "pq"] if history else state_names(n, npt))
+    names += ["nf", "nu", "nq"] + (mb.names_vec("nb", n) if sym_base else []) + (mb.names_vec("xn", n) if sym_xnew else [])
+    F = FieldCtx(names)
+    sh = Shadow()
+    label = f"C12.update0[n={n},npt={npt},geom={gtag(symbolic)}]"
+    xb, X = mb.geometry(F, label, n, npt, symbolic)
+    it = sh.interpolation(xb.copy(), X.copy())
+    if history:
+        M = fresh_models(sh, F, it, npt)
+        k_prev = (k_new + 1) % npt
+        x_prev = mb.lift_array(F, mb.rational_vector(label + f"prev{k_prev}", n) if symbolic
+                               else mb.rational_new_point(label + f"prev{k_prev}", it.x_base, it.xpt, k_prev))
+        M.update_interpolation(k_prev, x_prev, F.sym("pf"), arr([F.sym("pu")]), arr([F.sym("pq")]))
+        ok, note = interpolation_residual(F, M)
+        if not ok:
+            raise mb.Unsupported("zero-residual scenario: the preceding ordinary update already broke interpolation: " + note)
+    else:
+        M = general_models(sh, F, it, n, npt)
+    if sym_xnew:
+        x_new = F.vec("xn", n)
+    elif symbolic:
+        x_new = mb.lift_array(F, mb.rational_vector(label + f"k{k_new}", n))
+    else:
+        x_new = mb.lift_array(F, mb.rational_new_point(label + f"k{k_new}", it.x_base, it.xpt, k_new))
+    models = {"fun": M._fun, "cub": M._cub[0], "ceq": M._ceq[0]}
+    # the scenario must not be vacuous: the replaced point carries an implicit weight in every model with a zero residual
+    for lab in zero:
+        if mb.all_zero(F, models[lab]._i_hess[k_new])[0]:
+            raise mb.Unsupported(f"zero-residual scenario vacuous: implicit weight {k_new} of the {lab} model is identically zero")
+    new = {"fun": F.sym("nf"), "cub": F.sym("nu"), "ceq": F.sym("nq")}
+    pred = {"fun": M.fun(x_new), "cub": M.cub(x_new)[0], "ceq": M.ceq(x_new)[0]}
+    for lab in zero:
+        new[lab] = pred[lab]                       # recorded value := the model's own prediction (residual identically 0)
+    old_vals = (M.fun_val.copy(), M.cub_val.copy(), M.ceq_val.copy())
+    M.update_interpolation(k_new, x_new.copy(), new["fun"], arr([new["cub"]]), arr([new["ceq"]]))
+    exp_f, exp_u, exp_q = old_vals
+    exp_f[k_new], exp_u[k_new, 0], exp_q[k_new, 0] = new["fun"], new["cub"], new["ceq"]
+    ok, note = mb.same(F, M.fun_val, exp_f)
+    for got, exp, lab in ((M.cub_val, exp_u, "cub_val"), (M.ceq_val, exp_q, "ceq_val"), (it.point(k_new), x_new, "point(k_new)")):
+        if ok:
+            ok, note = mb.same(F, got, exp)
+            note = note and f"{lab}: {note}"
+    if ok:
+        ok, note = interpolation_residual(F, M)
+        note = note and f"after an update whose residual is identically zero for {'+'.join(zero)}: " + note
+    emit("C12.update_zero_residual_preserves_interpolation" + tag, ok, note)
+    new_base = F.vec("nb", n) if sym_base else mb.lift_array(F, mb.rational_vector(label + "newbase", n))
+    M.shift_x_base(new_base.copy(), sh.options())
+    ok, note = interpolation_residual(F, M)
+    note = note and f"after a zero-residual update ({'+'.join(zero)}) followed by shift_x_base: " + note
+    emit("C12.update_zero_residual_then_shift_preserves_interpolation" + tag, ok, note)
+
+
 # ---- shift -----------------------------------------------------------------------------------------------------------
 def case_shift(emit, n, npt, symbolic):
     tag = f"[n={n},npt={npt},geom={gtag(symbolic)}]"
@@ -306,6 +385,44 @@ class C12UpdateN3Big(_C12Update):
     plan = [(3, 10, [0, 9], False, True, False), (3, 10, range(1, 9), False, THOROUGH, False)]
 
 
+class C12UpdateZeroResidual(_ModeB):
+    """An update whose residual is identically zero for some of the models must still move the implicit Hessian weight of
+    the replaced point to the explicit Hessian (otherwise the weight would silently refer to the new point)."""
+    name = "C12.modeb.update.zero_residual"
+    functions = _C12Update.functions + [("cobyqa.models", "Models.shift_x_base"), ("cobyqa.models", "Quadratic.shift_x_base"),
+                                        ("cobyqa.models", "Quadratic.__init__")]
+    bounded = ("exact symbolic execution of update_interpolation followed by shift_x_base with npt > n+1, in "
+               "which the value recorded at x_new for one, two or all three of the models (objective / inequality / equality) is "
+               "DEFINED as that model's own prediction at x_new, so that its values_diff is identically zero, the other new "
+               "values being free symbols; the replaced point carries a non-zero implicit Hessian weight (checked). "
+               "(a) pre-state 'arbitrary_state': " + PRE + "n=1, npt=3 (every k_new) with FULLY SYMBOLIC geometry, x_new and new "
+               "base; n=2, npt=5 (every k_new) and npt=6 (k_new 0,5) with seeded generic rational geometry and SYMBOLIC x_new (new "
+               "base symbolic for npt=5, k_new=0, generic rational otherwise); n=3, npt=7 (k_new 0,6) with seeded generic rational "
+               "geometry, x_new and new base.  (b) pre-state 'fresh+ordinary_update': models built by the real Quadratic.__init__ "
+               "from free symbolic values, then one ordinary update (free symbolic new values, generic rational point) of another "
+               "index, then the zero-residual update and a shift to a symbolic new base: n=1, npt=3 (every k_new) and n=2, npt=5 (k_new "
+               "0,2,4), seeded generic rational geometry and x_new chosen so that the set stays poised (FULLY SYMBOLIC geometry "
+               "with two successive solves did not finish in 25 s and is not claimed)")
+    ZERO = [("fun",), ("cub",), ("ceq",), ("fun", "ceq"), ("fun", "cub", "ceq")]
+    # (n, npt, k_news, symbolic geometry, symbolic x_new, history, symbolic new base, required)
+    plan = [(1, 3, range(3), True, True, False, True, True),
+            (2, 5, [0], False, True, False, True, True), (2, 5, range(1, 5), False, True, False, False, True),
+            (1, 3, range(3), False, False, True, True, True),
+            (2, 5, [0, 2, 4], False, False, True, True, True),
+            (2, 6, [0, 5], False, True, False, False, False), (3, 7, [0, 6], False, False, False, False, False)]
+
+    def run(self, c):
+        cs = Cases(c, self)
+        i = 0
+        for n, p, ks, sym, symx, hist, symb, req in self.plan:
+            for k in ks:
+                zero = self.ZERO[i % len(self.ZERO)]
+                i += 1
+                cs.run(f"C12.update0[n={n},npt={p},k_new={k},zero={'+'.join(zero)},{'hist' if hist else 'state'},{gtag(sym)}]",
+                       lambda e, n=n, p=p, k=k, zero=zero, sym=sym, symx=symx, hist=hist, symb=symb:
+                       case_update_zero_residual(e, n, p, k, zero, sym, symx, hist, symb), 25, req)
+
+
 class C12UpdateIll(_ModeB):
     """D8: `ill_conditioned = ill_conditioned or self._cub[i].update(...)` must not skip the update."""
     name = "C12.modeb.update_ill_conditioned"
@@ -354,5 +471,6 @@ class C12ShiftN3(_C12Shift):
         + ([(3, 10, True, False)] + [(4, p, True, False) for p in (5, 9, 15)] if THOROUGH else [])
 
 
-UNITS = [C12FreshSym(), C12FreshRat(), C12UpdateN1(), C12UpdateN2(), C12UpdateN2Sym(), C12UpdateN3(), C12UpdateN3Big(), C12UpdateIll(),
+UNITS = [C12FreshSym(), C12FreshRat(), C12UpdateN1(), C12UpdateN2(), C12UpdateN2Sym(), C12UpdateN3(), C12UpdateN3Big(), C12UpdateZeroResidual(),
+         C12UpdateIll(),
          C12ShiftSmall(), C12ShiftN3()]
